@@ -224,6 +224,8 @@ def r6(F, R):
     c06.r1(F, R)
     c08.r2(F, R)
     c08.r5(F, R)
+    # a cloned runner keeps every setting (Cucumber builders / runners are Clone)
+    roles.check_field_faithful_clone(F, R, "runner::basic::Basic", "runner")
 
 
 RULES = [("R6", r6, None), ("R1", r1, None), ("R2", r2, None), ("R3", r3, None), ("R4", r4, None), ("R5", r5, None)]
